@@ -37,6 +37,10 @@ pub fn requirements(tier: Tier) -> Vec<(&'static str, u64)> {
         ("long-strings-with-name-prefix", 1_000),
         ("joined-names", 500),
         ("accepted-in-enumerated-space", 7),
+        ("structured-padding", 40_000_000),
+        ("dense:same-length-ascii", 1_000_000_000),
+        // the 2^len case variants of the names lie inside the dense ASCII spaces
+        ("dense:accepted", if tier == Tier::Quick { 8 + 8 + 16 } else { 8 + 8 + 16 + 3 * 32 }),
     ]
 }
 
@@ -117,6 +121,159 @@ fn one(ctx: &mut Ctx, s: &str, counter: &'static str, in_space: bool) {
     }
     if let Some(f) = f {
         ctx.st.violation("C15.names", f.signature("C15.names", s), f.detail, json!({"kind": "string", "input": s}));
+    }
+}
+
+/// A string the library takes for a package type is judged in full (`one`); the others only
+/// counted. Used where the volume is too large for per-string bookkeeping.
+fn bulk(ctx: &mut Ctx, s: &str, accepted_counter: &'static str) {
+    if PackageType::from_str(s).is_ok() {
+        one(ctx, s, accepted_counter, false);
+    }
+}
+
+/// Names embedded in byte-structured strings: `pad^k x name`, `name x pad^k`, `x pad^k name`,
+/// `name pad^k x` for every ASCII pad byte, every ASCII byte x and k <= 8 (what a packed-word
+/// or length-prefixed comparison could mistake for the name), and every ASCII prefix / suffix
+/// of up to three bytes.
+fn structured_padding(ctx: &mut Ctx) {
+    let mut idx = 0u64;
+    let mut n = 0u64;
+    let res = guard("PackageType::from_str (structured padding)", || {
+        let mut buf = String::new();
+        for t in ALL_TYPES {
+            let name = r8(t);
+            for pad in 0u8..128 {
+                for x in 0u8..128 {
+                    idx += 1;
+                    if !ctx.mine(idx) {
+                        continue;
+                    }
+                    for k in 0..=8usize {
+                        for form in 0..4 {
+                            buf.clear();
+                            let padding = |b: &mut String| (0..k).for_each(|_| b.push(pad as char));
+                            match form {
+                                0 => {
+                                    padding(&mut buf);
+                                    buf.push(x as char);
+                                    buf.push_str(name);
+                                },
+                                1 => {
+                                    buf.push_str(name);
+                                    buf.push(x as char);
+                                    padding(&mut buf);
+                                },
+                                2 => {
+                                    buf.push(x as char);
+                                    padding(&mut buf);
+                                    buf.push_str(name);
+                                },
+                                _ => {
+                                    buf.push_str(name);
+                                    padding(&mut buf);
+                                    buf.push(x as char);
+                                },
+                            }
+                            n += 1;
+                            bulk(ctx, &buf, "structured-padding:accepted");
+                        }
+                    }
+                }
+            }
+            // every ASCII prefix / suffix of three bytes (shorter ones are covered above)
+            for a in 0u8..128 {
+                idx += 1;
+                if !ctx.mine(idx) {
+                    continue;
+                }
+                for b in 0u8..128 {
+                    for c in 0u8..128 {
+                        for form in 0..3 {
+                            buf.clear();
+                            match form {
+                                0 => {
+                                    buf.extend([a as char, b as char, c as char]);
+                                    buf.push_str(name);
+                                },
+                                1 => {
+                                    buf.push_str(name);
+                                    buf.extend([a as char, b as char, c as char]);
+                                },
+                                _ => {
+                                    buf.extend([a as char, b as char]);
+                                    buf.push_str(name);
+                                    buf.push(c as char);
+                                },
+                            }
+                            n += 1;
+                            bulk(ctx, &buf, "structured-padding:accepted");
+                        }
+                    }
+                }
+            }
+        }
+    });
+    if let Out::Panic(m) = res {
+        ctx.st.violation("C15.names", format!("C15.names:panicked:{m}"), format!("PackageType::from_str panicked on a padded name: {m}"), json!({"kind": "string", "input": ""}));
+    }
+    ctx.st.evaluations += n;
+    ctx.st.add("structured-padding", n);
+    if ctx.worker == 0 {
+        ctx.st.exhaustive.push(json!({"name": "seven names x {pad^k x name, name x pad^k, x pad^k name, name pad^k x : pad, x in ASCII, k <= 8} and x every 3-byte ASCII prefix, suffix and 2+1 surround", "size": 7u64 * (128 * 128 * 9 * 4 + 128 * 128 * 128 * 3), "completed": true}));
+    }
+}
+
+/// Dense sampling of ASCII strings that have the length of a known name: every string of
+/// length 3 and 4 (thorough: 5), and seeded random ones of length 5 and 6. A recogniser that
+/// compares a digest, a checksum or a packed word instead of the text shows here.
+fn dense_same_length(ctx: &mut Ctx) {
+    let quick = ctx.quick();
+    let mut n = 0u64;
+    let mut buf = [0u8; 8];
+    let (w, nw) = (ctx.worker as u64, ctx.nworkers as u64);
+    let exhaustive_lens: &[usize] = if quick { &[3, 4] } else { &[3, 4, 5] };
+    for &len in exhaustive_lens {
+        let total = 128u64.pow(len as u32);
+        let mut j = w;
+        while j < total {
+            let mut rem = j;
+            for b in buf.iter_mut().take(len) {
+                *b = (rem & 127) as u8;
+                rem >>= 7;
+            }
+            let s = std::str::from_utf8(&buf[..len]).expect("ASCII");
+            bulk(ctx, s, "dense:accepted");
+            n += 1;
+            j += nw;
+        }
+    }
+    let mut r = ctx.rng("c15.dense");
+    // quick: length 5 only (three of the seven names); thorough: length 6 (5 is complete)
+    let per_len = ctx.share(5_000_000_000, 60_000_000_000);
+    for len in [5usize, 6] {
+        if quick != (len == 5) {
+            continue;
+        }
+        let mut i = 0u64;
+        while i < per_len {
+            // eight strings per 64-bit draw would correlate them; one draw per string
+            let mut x = r.next();
+            for b in buf.iter_mut().take(len) {
+                *b = (x & 127) as u8;
+                x >>= 7;
+            }
+            let s = std::str::from_utf8(&buf[..len]).expect("ASCII");
+            bulk(ctx, s, "dense:accepted");
+            i += 1;
+        }
+        n += per_len;
+        ctx.st.add(if len == 5 { "dense:random-length-5" } else { "dense:random-length-6" }, per_len);
+    }
+    ctx.st.evaluations += n;
+    ctx.st.add("dense:same-length-ascii", n);
+    if ctx.worker == 0 {
+        ctx.st.exhaustive.push(json!({"name": format!("every ASCII string of length {exhaustive_lens:?}"), "size": exhaustive_lens.iter().map(|l| 128u64.pow(*l as u32)).sum::<u64>(), "completed": true}));
     }
 }
 
@@ -243,6 +400,8 @@ pub fn run(ctx: &mut Ctx) {
     if ctx.worker == 0 {
         ctx.st.exhaustive.push(json!({"name": "all one-edit neighbours (insert/delete/replace/transpose) of the seven names", "size": idx, "completed": true}));
     }
+    structured_padding(ctx);
+    dense_same_length(ctx);
     let mut r = ctx.rng("c15");
     for _ in 0..ctx.share(50_000, 2_000_000) {
         let s = match r.below(3) {
